@@ -354,7 +354,12 @@ impl<'a> Gen<'a> {
             0 | 1 => {
                 let n = self.rng.below(4);
                 let items: Vec<String> = (0..n)
-                    .map(|_| format!("{}: {}", *self.rng.pick(&["'a'", "'b'", "'a'", "s", "'k'"]), self.expr(d, Ty::Any)))
+                    .map(|i| {
+                        // mostly string keys (with repeats); now and then a key that is not a string, never first:
+                        // the map is then a failure, and the VM must still consume every entry
+                        let k = if i > 0 && self.rng.chance(1, 12) { *self.rng.pick(&["1", "x", "n", "true", "[1]"]) } else { *self.rng.pick(&["'a'", "'b'", "'a'", "s", "'k'"]) };
+                        format!("{}: {}", k, self.expr(d, Ty::Any))
+                    })
                     .collect();
                 format!("{{{}}}", items.join(", "))
             }
